@@ -80,11 +80,36 @@ def judgeLateAll : (Sizes × Live) → List (Sizes × Live × Bool) → Option S
     | some c => some c
     | none => judgeLateAll (s, l) rest
 
+/-- what the op before an observation point was, as far as two more claims of the property are concerned -/
+inductive Mark
+  | none
+  | tickPastLifetime   -- a housekeeping tick, later than the exchange lifetime after the last message of the peer
+  | lastBlock          -- the peer's last block of a block-wise transfer towards us has just been processed
+  deriving Repr, DecidableEq
+
+/-- "Cached replies disappear after the exchange lifetime": one tick after the lifetime of the youngest reply removes them all.
+    "retains nothing … no block-wise reassembly buffers": the buffer of a transfer is gone when its last block has been delivered,
+    not only when a later sweep passes its timeout. -/
+def judgeMarks : (Sizes × Live) → List (Sizes × Live × Mark) → Option String
+  | _, [] => none
+  | prev, (s, l, m) :: rest =>
+    let bad := match m with
+      | .tickPastLifetime => if s.cache ≠ 0 then some "leak:cached-replies-after-lifetime" else none
+      | .lastBlock => if prev.1.bwR > 0 && s.bwR ≥ prev.1.bwR then some "leak:blockwise-reassembly-after-completion" else none
+      | .none => none
+    match bad with
+    | some c => some c
+    | none => judgeMarks (s, l) rest
+
 /-- the whole history: every point within bounds, no state re-created for an ended exchange, the final point empty -/
-def judge (points : List (Sizes × Live × Bool)) (final : Sizes × Live) : Option String :=
+def judge (points : List (Sizes × Live × Bool)) (final : Sizes × Live) (marks : List Mark := []) : Option String :=
   match points.findSome? (fun p => judgePoint p.1 p.2.1) with
   | some c => some c
   | none =>
+    match judgeMarks (⟨0, 0, 0, 0, 0, 0, 0, 0⟩, ⟨0, 0, 0, 0⟩)
+        ((points.zip (marks ++ List.replicate points.length Mark.none)).map (fun (p, m) => (p.1, p.2.1, m))) with
+    | some c => some c
+    | none =>
     match judgeLateAll (⟨0, 0, 0, 0, 0, 0, 0, 0⟩, ⟨0, 0, 0, 0⟩) points with
     | some c => some c
     | none => judgeFinal final.1 final.2
